@@ -1087,7 +1087,32 @@ def rule_order_kept(ctx: Ctx, rep: Report) -> None:
     rep.floor(rule, 8)
 
 
+def rule_time_keeps_its_offset(ctx: Ctx, rep: Report) -> None:
+    """C05.time_keeps_its_offset: the JSON form of a block header spells its time in
+    ISO 8601, offset included, and reading it back is reading that instant:
+    `datetime.fromisoformat(text)` and nothing that re-labels it.
+    `.replace(tzinfo=...)` on what was just parsed keeps the wall-clock digits
+    and swaps the zone -- "12:00+02:00" becomes 12:00 UTC, two hours off -- where
+    `.astimezone(...)` converts. No `.replace(tzinfo=` is applied to a parsed
+    time in the block / p2p / tx JSON readers."""
+    rule = "C05.time_keeps_its_offset"
+    n = 0
+    for q, fi in sorted(ctx.prog.functions.items()):
+        if not q.startswith(("btclib.block", "btclib.p2p", "btclib.tx", "btclib.psbt")):
+            continue
+        parses = [c for c in own_nodes(fi.node) if isinstance(c, ast.Call) and isinstance(c.func, ast.Attribute) and c.func.attr in ("fromisoformat", "strptime", "fromtimestamp")]
+        if not parses:
+            continue
+        n += 1
+        bad = [c for c in own_nodes(fi.node) if isinstance(c, ast.Call) and isinstance(c.func, ast.Attribute) and c.func.attr == "replace" and any(k.arg == "tzinfo" for k in c.keywords)
+               and any(p_ in ast.walk(c.func.value) for p_ in parses if p_.func.attr != "fromtimestamp")]
+        rep.ob(rule, q, not bad, fi.where(bad[0] if bad else parses[0]), "the parsed time is taken as the instant it spells" if not bad else
+               f"`{norm(bad[0])[:70]}` re-labels the zone of a parsed time instead of converting it: a time written with another offset reads back as another instant")
+    rep.floor(rule, 1)
+
+
 RULES = [
+    ("C05.time_keeps_its_offset", rule_time_keeps_its_offset),
     ("C05.order_kept", rule_order_kept),
     ("C05.count_bound_kind", rule_count_bound_kind),
     ("C05.zero_is_present", rule_zero_is_present),
